@@ -7,12 +7,16 @@
   * `EncJson.GoValue`, `EncJson.HasType T v`, `EncJson.encode T v` : values of the fragment and json.Marshal;
   * `EncJson.InDomain T` : basic kinds Bool / Int* / Uint* / Float* / String / Interface, pointers, slices,
     arrays, string-keyed maps, structs whose non-omitted fields have pairwise distinct JSON names (H_D14) and
-    tag names encoding/json accepts (H_D15); no named types (these are covered by C16.typeTable_substituted);
+    tag names encoding/json accepts (H_D15); no named types;
+  * `EncJson.InDomainN T` : the same with declared (named) types, which encoding/json treats like their underlying
+    types (`EncJson.erase`); `EncJson.NamedOk opts strs [] T` : `forType` does so too (no type-table entry, no name
+    twice along a path) — or the type is one of the marshaler types `strs` of the type table (`infer_sound_named`);
   * `Spec.specEnvNoRefs st re` : the Spec environment over the store, draft 2020-12, no references, any
     regexp matcher;
   * `EncJson.depth T` : the nesting depth of the schema, the fuel the Spec needs.
 -/
 import JSV.Proofs.InfSound
+import JSV.Proofs.InfNamed
 import JSV.Proofs.InfEmbSound
 import JSV.Proofs.EncEmbCons
 namespace JSV.C04
@@ -82,6 +86,212 @@ theorem infer_sound_nil_pointer (opts : IOpts) (fuel : Nat) (T : GoType) (st : S
     Spec.valid (specEnvNoRefs st' re) fuel' id .null = some true :=
   infer_sound opts fuel (.ptr T) st id st' re hnfs hdom h .nilPtr trivial fuel' hf
 
+
+/-! ## declared (named) types, and the marshaler types of the initial type table -/
+
+/-- **main, with declared types**: `type Point struct{…}`, `type Celsius float64`, `type IDs []int` … at any position of
+    `T`.  For a type of the domain `InDomainN` (`InDomain` with declared types allowed) whose declared types are
+    transparent for `forType` (`NamedOk`, decidable: a declared type that is not one of the marshaler types `strs` has no
+    entry in the type table, its underlying type is a basic kind, slice, array, map or struct, and no name occurs twice
+    along a root-to-leaf path — the cycle check of `forType` fires otherwise, `C16.recursive_*_errors`), the schema
+    `ForType` returns accepts the JSON encoding of every value of the type; a value of a declared type is a value of its
+    underlying type and is encoded like it (encoding/json for types without marshal methods).
+
+    The marshaler types `strs` (`StrEntries`): declared types whose entry in the type table is the schema
+    `{"type":"string"}` — `initial_entries_string`: time.Time, slog.Level, big.Rat, big.Float of the initial table — and
+    whose `MarshalJSON` / `MarshalText` writes a JSON string.  Such a type is represented as `.named n (.basic "String")`,
+    its values as `GoValue.str s` with `s` the marshaled text (nothing else about these types is modelled).  `ForType`
+    returns a clone of the entry, with `null` added for a pointer; it accepts every string, and `null`.
+    (big.Int is not one of them: it marshals as a JSON number, which its entry `{"type":"string"}` rejects — the known
+    finding D13.  A marshaler type with pointer receiver held by value in a non-addressable position is outside the
+    property's domain: encoding/json does not call the marshaler there.)
+
+    The statement for types without declared types is `infer_sound` (there `NamedOk` holds trivially). -/
+theorem infer_sound_named (opts : IOpts) (strs : List String) (fuel : Nat) (T : GoType) (st : Store) (id : NodeId)
+    (st' : Store) (re : String → String → Bool) (hnfs : opts.nullForSlices = true) (hdom : InDomainN T = true)
+    (hst : StrEntries opts.schemas strs st) (hok : NamedOk opts strs [] T = true)
+    (h : forType opts fuel T st = .ok (some id, st')) (v : GoValue) (hv : HasType T v)
+    (fuel' : Nat) (hf : depth T ≤ fuel') :
+    Spec.valid (specEnvNoRefs st' re) fuel' id (encode T v) = some true := by
+  rw [forType_erase opts strs fuel T st hst hok] at h
+  rw [← encode_erase]
+  exact infer_sound opts fuel (erase T) st id st' re hnfs (by rw [← inDomainN_eq_erase]; exact hdom) h v
+    ((hasType_erase T v).2 hv) fuel' (Nat.le_trans (depth_erase_le T) hf)
+
+/-- on the domain with declared types `ForType` never drops the type -/
+theorem infer_some_named (opts : IOpts) (strs : List String) (fuel : Nat) (T : GoType) (st : Store) (r : Option NodeId)
+    (st' : Store) (hdom : InDomainN T = true) (hst : StrEntries opts.schemas strs st)
+    (hok : NamedOk opts strs [] T = true) (h : forType opts fuel T st = .ok (r, st')) : ∃ id, r = some id := by
+  rw [forType_erase opts strs fuel T st hst hok] at h
+  exact infer_some opts fuel (erase T) st r st' (by rw [← inDomainN_eq_erase]; exact hdom) h
+
+/-- the schema built for a type with declared types is the schema of the type with the declared types replaced by their
+    underlying types (`erase`), in the sense of `Go.Models` -/
+theorem infer_models_erase (opts : IOpts) (strs : List String) (fuel : Nat) (T : GoType) (st : Store) (id : NodeId)
+    (st' : Store) (hdom : InDomainN T = true) (hst : StrEntries opts.schemas strs st)
+    (hok : NamedOk opts strs [] T = true) (h : forType opts fuel T st = .ok (some id, st')) :
+    Models opts.nullForSlices st' (erase T) false id := by
+  rw [forType_erase opts strs fuel T st hst hok] at h
+  obtain ⟨id', hid, hm⟩ := inferFuel_models opts fuel (erase T) [] st (some id) st'
+    (by rw [← inDomainN_eq_erase]; exact hdom) h
+  cases hid
+  exact hm
+
+/-- the spec with declared types is conservative: typing, json.Marshal and the strict decoder on `T` are those on
+    `erase T`; `InDomainN` is `InDomain` of `erase T`, and contains `InDomain` -/
+theorem encJson_named_conservative (T : GoType) :
+    (∀ v, HasType (erase T) v ↔ HasType T v) ∧ (∀ v, encode (erase T) v = encode T v) ∧
+    (∀ j, decodable (erase T) j = decodable T j) ∧ InDomainN T = InDomain (erase T) ∧
+    (InDomain T = true → InDomainN T = true) :=
+  ⟨hasType_erase T, encode_erase T, decodable_erase T, inDomainN_eq_erase T, inDomainN_of_inDomain T⟩
+
+/-! ### the initial type table (infer.go `init`), regenerated from the source -/
+
+/-- the standard-library marshaler types of the initial table whose JSON form is a string -/
+def marshalerTypes : List String := ["time.Time", "slog.Level", "big.Rat", "big.Float"]
+
+/-- the initial type table as the driver builds it: ONE schema object (`ss`, node 0) shared by all entries -/
+def initialTable : List (String × NodeId) :=
+  ["time.Time", "slog.Level", "big.Int", "big.Rat", "big.Float"].map fun n => (n, 0)
+
+/-- **the initial entries are `{"type":"string"}`** (regenerated facts `Generated.initialSchemaEntries`,
+    `Generated.initialSchemaLocals`): `init` enters time.Time, slog.Level, big.Int, big.Rat and big.Float, each with the
+    one schema `ss`, which is `&Schema{Type: "string"}` (for big.Int, under the GODEBUG setting, `["null","string"]`).
+    A change of the table changes these lists and fails this obligation. -/
+theorem initial_entries_string :
+    Generated.initialSchemaLocals = ["ss := &Schema{Type: \"string\"}"] ∧
+    Generated.initialSchemaEntries =
+      ["reflect.TypeFor[time.Time]() := ss", "reflect.TypeFor[slog.Level]() := ss",
+       "reflect.TypeFor[big.Int]() := &Schema{Types: []string{\"null\", \"string\"}}",
+       "reflect.TypeFor[big.Int]() := ss", "reflect.TypeFor[big.Rat]() := ss", "reflect.TypeFor[big.Float]() := ss"] := by
+  decide
+
+/-- … so `StrEntries` holds of the initial table for the marshaler types, in every store that extends the one holding
+    `ss` -/
+theorem strEntries_initial (st : Store) (h : st.get? 0 = some strNode) : StrEntries initialTable marshalerTypes st := by
+  intro n hn sid hs
+  simp only [marshalerTypes, List.mem_cons, List.not_mem_nil, or_false] at hn
+  rcases hn with rfl | rfl | rfl | rfl <;>
+  · have : sid = 0 := by
+      simp [initialTable, Json.lookup] at hs
+      exact hs.symm
+    rw [this]; exact h
+
+/-- `infer_sound_named` for the initial type table (no `TypeSchemas`): declared types without marshal methods anywhere,
+    time.Time / slog.Level / big.Rat / big.Float as `.named n (.basic "String")` -/
+theorem infer_sound_initial_table (opts : IOpts) (fuel : Nat) (T : GoType) (st : Store) (id : NodeId)
+    (st' : Store) (re : String → String → Bool) (hnfs : opts.nullForSlices = true) (htbl : opts.schemas = initialTable)
+    (hss : st.get? 0 = some strNode) (hdom : InDomainN T = true) (hok : NamedOk opts marshalerTypes [] T = true)
+    (h : forType opts fuel T st = .ok (some id, st')) (v : GoValue) (hv : HasType T v)
+    (fuel' : Nat) (hf : depth T ≤ fuel') :
+    Spec.valid (specEnvNoRefs st' re) fuel' id (encode T v) = some true :=
+  infer_sound_named opts marshalerTypes fuel T st id st' re hnfs hdom (by rw [htbl]; exact strEntries_initial st hss) hok
+    h v hv fuel' hf
+
+/-! ### the hypotheses of `infer_sound_named` are satisfiable, and needed (labelled tests)
+
+  `tagLookup` splits the tag with `String.splitOn`, which the kernel does not evaluate; what the tag parser returns for
+  each tag is a hypothesis here (the parser is specified in C16: `fieldJSONInfo_named`, `fieldJSONInfo_no_tag`). -/
+
+/-- `type Point struct { X int "json:\"x\""; Y int "json:\"y,omitempty\"" }` -/
+def pointT (tX tY : String) : GoType := .named "Point" (.struct [("X", tX, .basic "Int"), ("Y", tY, .basic "Int")])
+
+/-- `type Celsius float64` and
+    `type Reading struct { Temp Celsius "json:\"temp\""; Origin Point "json:\"origin\""; Path []Point "json:\"path\"";
+                           At time.Time "json:\"at\"" }`:
+    a declared struct type with a declared scalar type, a declared struct type at two sibling positions (once in a
+    slice) and a marshaler type of the initial table -/
+def readingT (tT tO tP tA tX tY : String) : GoType :=
+  .named "Reading" (.struct [
+    ("Temp", tT, .named "Celsius" (.basic "Float64")),
+    ("Origin", tO, pointT tX tY),
+    ("Path", tP, .slice (pointT tX tY)),
+    ("At", tA, .named "time.Time" (.basic "String"))])
+
+/-- the options of a call without `TypeSchemas`: the initial table -/
+def initialOpts : IOpts := { schemas := initialTable }
+
+/-- the declared types of `Reading` are transparent, time.Time is a marshaler type of the table (no tag is read) -/
+theorem reading_namedOk (tT tO tP tA tX tY : String) :
+    NamedOk initialOpts marshalerTypes [] (readingT tT tO tP tA tX tY) = true := by
+  simp [readingT, pointT, NamedOk, namedOkFields, initialOpts, initialTable, marshalerTypes, namedShape, isStringKind,
+    Json.lookup]
+
+section WitnessesN
+variable (tT tO tP tA tX tY : String)
+  (hT : fieldJSONInfo "Temp" tT = { name := "temp" }) (hO : fieldJSONInfo "Origin" tO = { name := "origin" })
+  (hP : fieldJSONInfo "Path" tP = { name := "path" }) (hA : fieldJSONInfo "At" tA = { name := "at" })
+  (hX : fieldJSONInfo "X" tX = { name := "x" }) (hY : fieldJSONInfo "Y" tY = { name := "y", omitempty := true })
+include hT hO hP hA hX hY
+
+theorem reading_inDomainN : InDomainN (readingT tT tO tP tA tX tY) = true := by
+  have v1 : validTagName "temp" = true := by decide
+  have v2 : validTagName "path" = true := by decide
+  have v3 : validTagName "at" = true := by decide
+  have v4 : validTagName "x" = true := by decide
+  have v5 : validTagName "y" = true := by decide
+  have v6 : validTagName "origin" = true := by decide
+  have d1 : "Int" ∈ domainKinds := by decide
+  have d2 : "String" ∈ domainKinds := by decide
+  have d3 : "Float64" ∈ domainKinds := by decide
+  simp [readingT, pointT, InDomainN, inDomainFieldsN, jsonNames, nodup, fieldTagOk, hT, hO, hP, hA, hX, hY, v1, v2, v3, v4,
+    v5, v6, d1, d2, d3]
+
+/-- the value `Reading{Temp: 20, Origin: Point{0, 0}, Path: []Point{{X: 1, Y: 0}}, At: t}` where `t.MarshalJSON()` is
+    `"2026-09-30T00:00:00Z"` -/
+theorem reading_hasType : HasType (readingT tT tO tP tA tX tY)
+    (.struct [.float 20, .struct [.int 0, .int 0], .slice [.struct [.int 1, .int 0]], .str "2026-09-30T00:00:00Z"]) := by
+  simp [readingT, pointT, HasType, HasTypeFields, hT, hO, hP, hA, hX, hY, basicHasType, intRange, floatKinds]
+  exact ⟨⟨_, _, ⟨rfl, rfl⟩, by decide, by decide⟩, ⟨_, _, ⟨rfl, rfl⟩, by decide, by decide⟩,
+    ⟨_, _, ⟨rfl, rfl⟩, by decide, by decide⟩⟩
+
+/-- `ForType` succeeds on the type (the initial table, the store that holds `ss`): `h` below is satisfiable -/
+theorem reading_infers (dT : tagLookup "jsonschema" tT = none) (dO : tagLookup "jsonschema" tO = none)
+    (dP : tagLookup "jsonschema" tP = none) (dA : tagLookup "jsonschema" tA = none)
+    (dX : tagLookup "jsonschema" tX = none) (dY : tagLookup "jsonschema" tY = none) :
+    ∃ id st', forType initialOpts 5 (readingT tT tO tP tA tX tY) #[strNode] = .ok (some id, st') := by
+  rw [forType_erase initialOpts marshalerTypes 5 _ _ (strEntries_initial _ rfl) (reading_namedOk tT tO tP tA tX tY)]
+  have kF : kindEntry "Float64" = some ("number", none, none) := by decide
+  have kI : kindEntry "Int" = some ("integer", none, none) := by decide
+  have kS : kindEntry "String" = some ("string", none, none) := by decide
+  simp [readingT, pointT, erase, eraseFields, forType, inferFuel, inferStep, stripPtrs, typeName, structLoop, hT, hO, hP, hA,
+    hX, hY, dT, dO, dP, dA, dX, dY, Res.bind_ok, Store.alloc, addNull, dedupKeepLast, kF, kI, kS]
+
+/-- `infer_sound_initial_table` applied: the value marshals to
+    `{"temp":20,"origin":{"x":0},"path":[{"x":1}],"at":"2026-09-30T00:00:00Z"}` (`y` is 0 and omitempty), which the
+    inferred schema accepts -/
+example (id : NodeId) (st' : Store)
+    (h : forType initialOpts 5 (readingT tT tO tP tA tX tY) #[strNode] = .ok (some id, st')) :
+    Spec.valid (specEnvNoRefs st') 6 id
+      (.obj [("temp", .num 20), ("origin", .obj [("x", .num 0)]), ("path", .arr [.obj [("x", .num 1)]]),
+             ("at", .str "2026-09-30T00:00:00Z")]) = some true := by
+  have := infer_sound_initial_table initialOpts 5 _ #[strNode] id st' (fun _ _ => false) rfl rfl rfl
+    (reading_inDomainN tT tO tP tA tX tY hT hO hP hA hX hY) (reading_namedOk tT tO tP tA tX tY) h _
+    (reading_hasType tT tO tP tA tX tY hT hO hP hA hX hY) 6 (by simp [readingT, pointT, depth, depthFields])
+  simpa [readingT, pointT, encode, encodeFields, hT, hO, hP, hA, hX, hY, fieldSkipped, isEmptyValue] using this
+
+end WitnessesN
+
+/-- `NamedOk` is needed, (1): a name that occurs twice along ONE path — how a recursive declaration looks in the type
+    language — makes `forType` fail (the cycle check, `C16.recursive_*_errors`), although the erased type has a schema -/
+example : NamedOk {} [] [] (.named "L" (.slice (.named "L" (.slice (.basic "Int"))))) = false ∧
+    forType {} 5 (.named "L" (.slice (.named "L" (.slice (.basic "Int"))))) #[] = .err ∧
+    (forType {} 5 (erase (.named "L" (.slice (.named "L" (.slice (.basic "Int")))))) #[]).isOk = true :=
+  ⟨by decide, by rfl, by decide⟩
+
+/-- … (2): a declared type with a `TypeSchemas` entry that is not its own schema: `type Celsius float64` with the entry
+    `{"type":"string"}` — the clone of the entry rejects the encoding `20` of `Celsius(20)` -/
+example : NamedOk { schemas := [("Celsius", 0)] } [] [] (.named "Celsius" (.basic "Float64")) = false ∧
+    (match forType { schemas := [("Celsius", 0)] } 2 (.named "Celsius" (.basic "Float64")) #[strNode] with
+     | .ok (some id, st') => Spec.valid (specEnvNoRefs st') 2 id (encode (.named "Celsius" (.basic "Float64")) (.float 20))
+     | _ => none) = some false := by decide
+
+/-- … and the known finding D13 in these terms: big.Int is not among `marshalerTypes`, and cannot be: its entry is
+    `{"type":"string"}`, its JSON form a number (`.named "big.Int" (.basic "Int")`) -/
+example : NamedOk initialOpts marshalerTypes [] (.named "big.Int" (.basic "Int")) = false ∧
+    (match forType initialOpts 2 (.named "big.Int" (.basic "Int")) #[strNode] with
+     | .ok (some id, st') => Spec.valid (specEnvNoRefs st') 2 id (encode (.named "big.Int" (.basic "Int")) (.int 7))
+     | _ => none) = some false := by decide
 
 /-! ## embedded struct fields (`forTypeE`, JSV/Model/InferEmb.lean; json.Marshal: `EncJsonEmb.encodeE`) -/
 
